@@ -1,9 +1,9 @@
-\* thorough: adapters over {A,C,N} length 1..4, reads over {A,C,a} length 0..6
+\* thorough: adapters over {A,C,N} length 1..3, reads over {A,C,a} length 0..5
 CONSTANTS
   AAlpha = {65, 67, 78}
   RAlpha = {65, 67, 97}
-  MaxA = 4
-  MaxR = 6
+  MaxA = 3
+  MaxR = 5
   Rates <- RatesThorough
   Ovls = {1, 2, 3}
   RuleSet = {"Back", "Front", "Prefix", "Suffix", "FrontNI", "BackNI", "Anywhere", "RightmostFront"}
